@@ -24,7 +24,8 @@ ASSUMPTIONS = [
     "wasm-only code (cfg(target_family=\"wasm\")) and examples/ are not compiled and not covered",
 ]
 NOT_DECIDED = [
-    "the return-threshold arithmetic (>= 4 credits whenever the receiver is idle) for an arbitrary edited expression",
+    "the return-threshold arithmetic beyond receive buffers of 4..4096 bytes and beyond the arithmetic fragment of R03.9 "
+    "(an expression outside it is reported INCONCLUSIVE)",
     "global absence of deadlock across ports/tasks; behaviour of the peer",
 ]
 
@@ -266,6 +267,73 @@ def r03_8(ck, F):
     ck.expect(n >= 3, "request#sites", f"{n} CreditUser::request call sites", f"only {n} call sites of CreditUser::request found", None)
 
 
+def r03_9(ck, F):
+    ck.rule("R03.9", "the return threshold leaves the sender room for a port: in ChannelCreditReturner::start_return consumed "
+            "credit is sent back as soon as to_return reaches a threshold t(limit); for every legal receive buffer "
+            "(4 <= limit <= 4096, the lower bound being what Cfg::check / ExchangedCfg::read enforce) the credit an idle "
+            "receiver may still be holding back (t - 1 for `>=`, t for `>`) leaves the sender at least 4 credits, and t >= 1",
+            "receive_buffer = 6 with a threshold of limit/2 + 1 = 4: the receiver consumed everything but keeps 3 credits "
+            "back, the sender has 3 and waits for 4 to announce a port — both sides idle, the port transfer never happens",
+            floor=1)
+    b = F.body("chmux::credit::ChannelCreditReturner::start_return")
+    aggs = list(b.aggregates(PORT_EVT, "ReturnCredits"))
+    if not aggs:
+        raise mir.AnchorMissing("ReturnCredits construction in start_return")
+    abb = aggs[0][0]
+    cmp_ = None
+    for e, m in conds(b, abb):
+        if m is True and isinstance(e, tuple) and e[0] == "bin" and e[1] in ("Ge", "Gt") and "to_return" in mir.show(e[2]):
+            cmp_ = e
+    if cmp_ is None:
+        raise mir.AnchorMissing("comparison of to_return with the threshold guarding ReturnCredits")
+    strict = cmp_[1] == "Gt"
+    thr = cmp_[3]
+
+    def leaf(limit):
+        def f(x):
+            if mir.last_field(x) == "limit":
+                return limit
+            return None
+        return f
+
+    def value(limit):
+        """threshold for this limit: the definition of the threshold variable whose controlling conditions hold"""
+        if isinstance(thr, tuple) and thr[0] == "var" and not thr[2]:
+            locs = b.local_by_name(thr[1])
+            for d in (b.defs.get(locs[0], []) if locs else []):
+                if d[0] != "assign":
+                    continue
+                ok = True
+                for e, m in conds(b, d[1]):
+                    if isinstance(m, bool) and isinstance(e, tuple) and e[0] == "bin" and "limit" in mir.field_leaves(e):
+                        try:
+                            ok = ok and (bool(term_eval(e, leaf(limit))) == m)
+                        except Unevaluable:
+                            pass
+                if ok:
+                    rv = d[3]["rv"]
+                    ex = ("bin", rv["op"], b.expr(rv["a"]), b.expr(rv["b"])) if rv["r"] == "bin" else b.expr(rv["o"])
+                    return term_eval(ex, leaf(limit))
+            raise Unevaluable("no definition of the threshold applies")
+        return term_eval(thr, leaf(limit))
+    cex = None
+    try:
+        for limit in range(4, 4097):
+            t = value(limit)
+            held = t if strict else t - 1
+            if t < 1 or limit - held < 4:
+                cex = (limit, t, limit - held)
+                break
+    except Unevaluable as ex:
+        ck.inconclusive("start_return#threshold", f"threshold {mir.show(thr)[:60]} outside the arithmetic fragment ({ex})", b.loc(abb))
+        return
+    ck.expect(cex is None, "start_return#threshold",
+              f"to_return {'>' if strict else '>='} t(limit): an idle receiver leaves the sender >= 4 credits for all 4 <= limit <= 4096",
+              f"for receive_buffer = {cex[0] if cex else ''} the return threshold is {cex[1] if cex else ''}: an idle receiver can hold back "
+              f"so much credit that the sender is left with {cex[2] if cex else ''} (< 4, the cost of announcing one port)", b.loc(abb),
+              {"counterexample": {"limit": cex[0], "threshold": cex[1], "sender_credits": cex[2]} if cex else None})
+
+
 def r03_3(ck, F):
     ck.rule("R03.3", "AssignedCredits has a Drop impl whose body adds self.port to the pool's credits",
             "a send that fails or is cancelled after requesting credit: the unused credit is lost", floor=1)
@@ -474,7 +542,7 @@ def r03_7(ck, F):
 
 
 def run(ck, F):
-    for r in (r03_1, r03_1b, r03_2, r03_2b, r03_3, r03_4, r03_4b, r03_5, r03_6, r03_7, r03_8):
+    for r in (r03_1, r03_1b, r03_2, r03_2b, r03_3, r03_4, r03_4b, r03_5, r03_6, r03_7, r03_8, r03_9):
         ck.run_rule(r)
     import c02
     ck.run_rule(c02.r02_6)     # sender pays max(len, 1): a receiver that books less leaks one credit per empty frame
